@@ -326,6 +326,14 @@ impl ClosestDisjointPeersIter {
     }
 }
 
+#[cfg(libp2p_verif)]
+impl ClosestDisjointPeersIter {
+    /// Verification hook: read access to the per-path iterators.
+    pub(crate) fn verif_paths(&self) -> &[ClosestPeersIter] {
+        &self.iters
+    }
+}
+
 /// Index into the [`ClosestDisjointPeersIter`] `iters` vector.
 #[derive(Debug, Clone, Copy, PartialEq, Eq)]
 struct IteratorIndex(usize);
